@@ -28,12 +28,29 @@ theorem fingerprint_rfc4880 (sha1 : Bytes → Bytes) (b : Bytes) (hb : b.Valid) 
     keyId sha1 k = (sha1 ([0x99, b.length / 256, b.length % 256] ++ b)).drop 12 :=
   Lemmas.Pgp.fingerprint_rfc4880 sha1 b hb k h hk
 
-/-- the hypothesis `kdfOk` is needed (recorded finding D26): a KDF field of length 5 is accepted but written back
-    with length 3, so the re-serialised body — and with it the fingerprint input — differs from the packet -/
+/-- the regenerated fact: the ECDH KDF field is written back with all its octets -/
+theorem kdf_keeps_extra : Gen.pgpKdfKeepsExtra = true := by decide
+
+/-- RE-SERIALISATION IS EXACT, FULL STRENGTH (holds since finding D26 was repaired): for EVERY accepted key body,
+    ECDH keys with a longer KDF field included -/
+theorem reserialize_exact_full (b : Bytes) (hb : b.Valid) (k : PubKey) (rest : Bytes)
+    (h : parseBody b = some (k, rest)) : serializeBody k ++ rest = b :=
+  Lemmas.Pgp.reserialize_exact_full kdf_keeps_extra b hb k rest h
+
+/-- … and so is the fingerprint: RFC 4880 §12.2 over the packet exactly as it appears, for every accepted key -/
+theorem fingerprint_rfc4880_full (sha1 : Bytes → Bytes) (b : Bytes) (hb : b.Valid) (k : PubKey)
+    (h : parseBody b = some (k, [])) :
+    fingerprint sha1 k = sha1 ([0x99, b.length / 256, b.length % 256] ++ b) ∧
+    keyId sha1 k = (sha1 ([0x99, b.length / 256, b.length % 256] ++ b)).drop 12 :=
+  Lemmas.Pgp.fingerprint_rfc4880_full kdf_keeps_extra sha1 b hb k h
+
+/-- WITNESS (finding D26, and its mirror image reported by the C11 audit): when the field is always written with
+    length 3, a KDF field of length 5 is accepted but the re-serialised body — the fingerprint and signature input —
+    differs from the packet; with the octets kept it is the packet -/
 theorem kdf_witness :
     let b : Bytes := [4, 0, 0, 0, 1, 18, 1, 42, 0, 8, 0x40] ++ [5, 1, 8, 7, 0xAA, 0xBB]
-    ∃ k, parseBody b = some (k, []) ∧ serializeBody k ≠ b := by
-  refine ⟨⟨1, 18, .ecdh [42] ⟨8, [0x40]⟩ 8 7 [0xAA, 0xBB]⟩, by decide, by decide⟩
+    ∃ k, parseBody b = some (k, []) ∧ serializeBodyB false k ≠ b ∧ serializeBodyB true k = b := by
+  refine ⟨⟨1, 18, .ecdh [42] ⟨8, [0x40]⟩ 8 7 [0xAA, 0xBB]⟩, by decide, by decide, by decide⟩
 
 /-- SIZE: the size shown for RSA / DSA / ElGamal keys is the declared bit length of n / p, which `readMPI` takes
     verbatim from the two length octets -/
